@@ -74,6 +74,7 @@ type Node struct {
 	inst     *Inst
 	down     bool // crashed or shut down, not restarted yet
 	starting bool
+	stopping bool // a clean Shutdown() of the last incarnation is still in progress
 	removed  bool // scenario decided this server stays down
 }
 
@@ -231,7 +232,7 @@ func (n *Node) FaultsTaken() []string {
 // Start brings up a new incarnation of nd on its current durable image.
 func (c *Cluster) Start(nd *Node) bool {
 	nd.mu.Lock()
-	if !nd.down || nd.starting || nd.removed {
+	if !nd.down || nd.starting || nd.removed || nd.stopping {
 		nd.mu.Unlock()
 		return false
 	}
@@ -419,8 +420,10 @@ func (c *Cluster) ShutdownNode(nd *Node) *Inst {
 		return nil
 	}
 	nd.down = true
+	nd.stopping = true
 	nd.inst = nil
 	nd.mu.Unlock()
+	defer func() { nd.mu.Lock(); nd.stopping = false; nd.mu.Unlock() }()
 	nd.disk.LogIfLive(in.ep, Ev{K: "Lshutdown.begin"})
 	in.shut.Store(true)
 	in.r.Shutdown().Error()
